@@ -28,6 +28,24 @@ def status_table():
     return '\n'.join(rows)
 
 
+def xengines_table():
+    m = json.load(open(V + '/MANIFEST.json'))
+    rows = ['| id | engine (specs/) | subsystem | TLC states (quick) | traces validated (quick) | quick wall s |', '|---|---|---|---|---|---|']
+    for e in m.get('engines', []):
+        mo = re.match(r'(X\d\d)\b', e.get('kind_free_text', ''))
+        if not mo:
+            continue
+        xid = mo.group(1)
+        ev = {}
+        p = '%s/evidence/%s.json' % (V, xid)
+        if os.path.exists(p):
+            ev = json.load(open(p))
+        cov = ev.get('coverage', {})
+        rows.append('| %s | %s | %s | %s | %s | %s |' % (xid, e['name'], e['kind_free_text'].split(':', 1)[-1].strip()[:160], cov.get('states', '-'),
+                                                      cov.get('traces_validated_against_impl', '-'), ev.get('wall_s', '-')))
+    return '\n'.join(rows)
+
+
 def findings_tables():
     k = json.load(open(V + '/known_findings.json'))
     out = ['**Known findings (recorded, not repaired)**', '', '| property | signature | what fails | where | why recorded rather than repaired |',
@@ -54,7 +72,7 @@ def seeded_table():
 def main():
     p = V + '/DESIGN.md'
     s = open(p).read()
-    for key, fn in (('status', status_table), ('findings', findings_tables), ('seeded', seeded_table)):
+    for key, fn in (('status', status_table), ('xengines', xengines_table), ('findings', findings_tables), ('seeded', seeded_table)):
         pat = re.compile(r'(<!-- GEN:%s -->).*?(<!-- /GEN:%s -->)' % (key, key), re.S)
         if pat.search(s):
             s = pat.sub(lambda mo: mo.group(1) + '\n' + fn() + '\n' + mo.group(2), s)
